@@ -767,8 +767,19 @@ impl TarLayout {
 }
 
 pub fn tar_write(members: &[(String, Vec<u8>)], layout: TarLayout) -> Vec<u8> {
+	tar_write_impl(members, layout, false)
+}
+
+/// like `tar_write`, but a member whose bytes equal those of an earlier member is stored the way GNU tar / bsdtar
+/// store further names of one inode: as a hard-link member (typeflag '1', size 0, linkname = the earlier member)
+pub fn tar_write_hard_links(members: &[(String, Vec<u8>)], layout: TarLayout) -> Vec<u8> {
+	tar_write_impl(members, layout, true)
+}
+
+fn tar_write_impl(members: &[(String, Vec<u8>)], layout: TarLayout, hard_links: bool) -> Vec<u8> {
 	let mut out = vec![];
 	let mut dirs_done = std::collections::BTreeSet::new();
+	let mut first_with: std::collections::HashMap<&[u8], &str> = std::collections::HashMap::new();
 	for (name, data) in members {
 		if layout.dir_entries {
 			let parts: Vec<&str> = name.split('/').collect();
@@ -777,6 +788,16 @@ pub fn tar_write(members: &[(String, Vec<u8>)], layout: TarLayout) -> Vec<u8> {
 				if d != "./" && dirs_done.insert(d.clone()) {
 					out.extend(tar_header(&d, 0, b'5', layout.gnu));
 				}
+			}
+		}
+		if hard_links && !data.is_empty() {
+			if let Some(first) = first_with.get(data.as_slice()) {
+				if *first != name.as_str() {
+					out.extend(tar_link_header(name, first, b'1'));
+					continue;
+				}
+			} else {
+				first_with.insert(data.as_slice(), name.as_str());
 			}
 		}
 		out.extend(tar_header(name, data.len(), b'0', layout.gnu));
